@@ -178,14 +178,21 @@ def definite_errors(kind, spec, info):
             good = dict(zip(names, [1, 2] if call != "keys_contain_N_of" else [1, ["a"]]))
             out.append(("unknown-keyword", {key: dict(good, zzz=1)}))
             out.append(("missing-keyword", {key: {names[0]: 1, "zzz": 2}}))
+            for m in ({"path": ["a", "b"]}, {"path.all": ["a", {"type": "list_value"}]}, {"path": []}):
+                out.append(("path-spec-for-multi-argument", {key: m}))
         elif sig == "varpos":
             out.append(("scalar-for-var-positional", {key: 1}))
             out.append(("scalar-for-var-positional", {key: "int"}))
             out.append(("mapping-for-var-positional", {key: {"a": 1}}))
             out.append(("none-for-var-positional", {key: None}))
+            # a mapping that happens to be a well-formed data-path spec (or an escaped literal) is still not a list
+            for m in ({"path": ["a", "b"]}, {"path.length": ["a"]}, {"path": []}, {"\\path": ["a"]}, {"path.first": [{"type": "list_value"}]}):
+                out.append(("path-spec-for-var-positional", {key: m}))
         elif sig == "varkw":
             out.append(("list-for-var-keyword", {key: ["a", 1]}))
             out.append(("scalar-for-var-keyword", {key: 1}))
+            for m in ({"path": ["a", "b"]}, {"path.map_values": ["a"]}, {"path": []}):
+                out.append(("path-spec-for-var-keyword", {key: m}))
         # two keys where one is required
         out.append(("two-keys", {key: val, ("value.truthy" if key != "value.truthy" else "value.falsy"): None}))
         out.append(("two-keys", {key: val, "and": []}))
